@@ -123,8 +123,8 @@ def r_cli2(root):
     return inst, out
 def r_C33c_C34g(root):
     out = []; inst = 0
-    t = load(root, M); drv = find(t, "parse_tree_to_objgraph")
-    pn = find(t, "parse_tree_to_objgraph.process_node"); fi = sem.info(pn)
+    t = load(root, M); drv = find_i(root, M, "parse_tree_to_objgraph")
+    pn = find_i(root, M, "parse_tree_to_objgraph.process_node"); fi = sem.info(pn)
     # ---- C33.c
     for q in ("parse_tree_to_objgraph.process_node", "parse_tree_to_objgraph.process_match"):
         try: fn = find(t, q)
